@@ -256,13 +256,15 @@ def check(pid, tier, seed):
         # ---- direction B: behaviours of the small-scope model executed by the real contracts --------
         if any(m == 'MC_Pool' for m, _ in spec.get('mc', [])) and not os.environ.get('VERIF_TRACES_ONLY'):
             kinds = ['NN', 'NC', 'CC'] if tier == 'thorough' else [['NN', 'NC', 'CC'][int(pid[1:]) % 3]]
-            num, depth = (1500, 8) if tier == 'thorough' else (64, 7)
+            num, depth = (3000, 10) if tier == 'thorough' else (240, 8)
             scs = []
             for k in kinds:
-                cfg = mc_pool_cfg(k, tier, full=True).replace('INVARIANT C20_State\n', '').replace('PROPERTY StepProp\n', '').replace('EXPORT = FALSE', 'EXPORT = TRUE')
-                cfg = re.sub(r'MAXSTEPS = \d+', 'MAXSTEPS = %d' % depth, cfg)
-                bs = dirb.generate(k, num, depth, seed, os.path.join(workdir, 'simB_' + k), cfg)
-                scs += dirb.scenarios(k, bs, 'modelB-%d' % seed)
+                # three quarters of the behaviours over the well-formed shapes, one quarter over all shapes
+                for full, share in ((False, 3), (True, 1)):
+                    cfg = mc_pool_cfg(k, tier, full=full).replace('INVARIANT C20_State\n', '').replace('PROPERTY StepProp\n', '').replace('EXPORT = FALSE', 'EXPORT = TRUE')
+                    cfg = re.sub(r'MAXSTEPS = \d+', 'MAXSTEPS = %d' % depth, cfg)
+                    bs = dirb.generate(k, max(1, num * share // 4), depth, seed, os.path.join(workdir, 'simB_%s_%s' % (k, full)), cfg)
+                    scs += dirb.scenarios(k, bs, 'modelB-%d-%s' % (seed, 'all' if full else 'wf'))
             sp = os.path.join(workdir, 'modelB.scenarios')
             with open(sp, 'w') as f:
                 f.write('\n'.join(json.dumps(x) for x in scs) + '\n')
